@@ -84,6 +84,7 @@ def gen_case(run_seed: int, index: int, tier: str) -> dict:
         "torch_seed": rng.randrange(1 << 31), "data_seed": rng.randrange(1 << 31),
         "warmup": rng.choice([None, None, [6], [2, 9], [3, 2, 2, 2]]),  # an earlier call on the same channel object, other shape
         "noncontig": rng.random() < 0.2,
+        "warmup_n": rng.choice([1, 1, 2, 4]), "other_instance_first": rng.random() < 0.2, "mode_toggle": rng.choice([None, None, "eval", "train"]),
     }
 
 
@@ -134,14 +135,22 @@ def execute(case: dict) -> RunResult:
     L = n // B
     T = case["T"]
     nblocks = (L + T - 1) // T
+    if case.get("other_instance_first"):
+        other = dict(case, T=case["T"] + 3, k=(case["k"] + 1.0), how="generic")
+        torch.manual_seed(case["torch_seed"] ^ 0x777)
+        _channel(other)(torch.randn(3, 11))
+        res.faults["history.other_instance_first"] += 1
     ch = _channel(case)
+    if case.get("mode_toggle"):
+        ch.train(case["mode_toggle"] == "train")
     mode = case["mode"]
     cdt = torch.complex128 if case["dtype"] == "float64" else torch.complex64
     if case.get("warmup"):
         gw = torch.Generator().manual_seed(case["data_seed"] ^ 0x77)
         torch.manual_seed(case["torch_seed"] ^ 0x2468)
-        ch(torch.randn(case["warmup"], generator=gw, dtype=DT[case["dtype"]]) * 3.0)
-        res.faults["history.earlier_call_on_same_object"] += 1
+        for _ in range(case.get("warmup_n", 1)):
+            ch(torch.randn(case["warmup"], generator=gw, dtype=DT[case["dtype"]]) * 3.0)
+            res.faults["history.earlier_call_on_same_object"] += 1
 
     def flat(t):  # the channel's internal (batch, sequence) layout
         return t.reshape(B, L)
